@@ -134,6 +134,12 @@ def run(ctx):
     ctx.undecided = ("most of the property: equality of packages across participants, shares lying on the summed "
                      "polynomial, signing afterwards (agreement between runs is not a structural fact).")
     ctx.floor = 13 if ctx.core_only else 14
+    refusal_inventory(ctx)
     wrappers(ctx, ['keys::dkg::part1', 'keys::dkg::part2', 'keys::dkg::part3'])
     part3_wiring(ctx)
     helpers(ctx)
+    # every valid (n, t) and identifier set: the parameter refusals are exactly the specified ones, and the share /
+    # commitment evaluation the verifying shares rely on is the per-step identity decided for C06
+    from .c06 import check_validate, arithmetic_kernels
+    check_validate(ctx)
+    arithmetic_kernels(ctx)
